@@ -227,6 +227,11 @@ def _floordiv(x, y):
 
 def pow2(E, st, n):
     """2**n for symbolic n >= 0 (uninterpreted with ground facts)"""
+    for (y, k) in st.ghost.get('enum_vals', ()):
+        # exponent == (a shift count this path fixed to the constant k) + constant: fold (exact on this path, no solver call)
+        d = z3.simplify(n - y)
+        if z3.is_int_value(d) and 0 <= k + d.as_long() <= 4096:
+            return z3.IntVal(2 ** (k + d.as_long()))
     if E.options.get('pow2_consts') and not z3.is_int_value(z3.simplify(n)):
         # opt-in: when the path condition fixes the exponent to one small constant, 2**n is that constant power
         s = z3.Solver()
@@ -363,6 +368,11 @@ def int_binop(E, op, a, b, st, sink):
                 else:
                     yield ok, mk_int(x / pow2(E, ok, y))
     elif isinstance(op, (ast.BitAnd, ast.BitOr, ast.BitXor)):
+        if isinstance(a, (bool, SBool)) and isinstance(b, (bool, SBool)):
+            # bool & | ^ bool is a bool in Python (`fmt_error |= cond`): exact on truth values, no bit-vector needed
+            ta, tb = zbool(a), zbool(b)
+            yield st, mk_bool(z3.simplify({ast.BitAnd: z3.And(ta, tb), ast.BitOr: z3.Or(ta, tb), ast.BitXor: z3.Xor(ta, tb)}[type(op)]))
+            return
         if isinstance(a, int) and not isinstance(b, int):
             a, b, x, y = b, a, y, x
         if isinstance(b, int):
@@ -424,6 +434,7 @@ def _small_shift_cases(E, st, y):
         s1 = st if i == len(ks) - 1 else st.fork()
         s1.pc.append(y == k)
         s1.trace.append(('shift', k))
+        s1.ghost['enum_vals'] = tuple(s1.ghost.get('enum_vals', ())) + ((y, k),)
         out.append((s1, k))
     return out
 
